@@ -829,7 +829,7 @@ theorem scanRev_clean (gd : Gdef) (lk : Lookup) :
             · exact h2 t h'
 
 theorem runLookup_eq2 (B : Nat) (ll : LookupList) (gd : Gdef) (hok : Spec.Shape.tablesOk ll gd = true)
-    (hnp : nestedPointwiseLL ll = true) (lk : Lookup) (hlk : lk ∈ ll)
+    (hstep : ∀ lk ∈ ll, StepEq B ll gd lk) (lk : Lookup) (hlk : lk ∈ ll)
     (ts out : List TG) (hc : AllClean ts) (h : Spec.Shape.runLookup B ll gd lk ts = .ok out) :
     Shape.applyLookup B ll gd lk ⟨gl ts, []⟩ = .ok ⟨gl out, []⟩ ∧ AllClean out := by
   by_cases hany : lk.subtables.any Spec.Shape.isReverse = true
@@ -866,12 +866,12 @@ theorem runLookup_eq2 (B : Nat) (ll : LookupList) (gd : Gdef) (hok : Spec.Shape.
     simp only [hany] at h
     unfold Shape.applyLookup
     simp only [hrev]
-    have := scanFwd_eq2 B ll gd lk (stepEq B ll gd hok hnp lk hlk) ts.length ts.length [] ts out
+    have := scanFwd_eq2 B ll gd lk (hstep lk hlk) ts.length ts.length [] ts out
       (fun _ h' => by cases h') hc (Nat.le_refl _) h
     simpa using this
 
 theorem runLookups_eq2 (B : Nat) (ll : LookupList) (gd : Gdef) (hok : Spec.Shape.tablesOk ll gd = true)
-    (hnp : nestedPointwiseLL ll = true) :
+    (hstep : ∀ lk ∈ ll, StepEq B ll gd lk) :
     ∀ (lookups : List Nat) (ts out : List TG), AllClean ts → Spec.Shape.runLookups B ll gd lookups ts = .ok out →
     Shape.applyLookups B ll gd lookups ⟨gl ts, []⟩ = .ok ⟨gl out, []⟩ := by
   intro lookups
@@ -895,20 +895,24 @@ theorem runLookups_eq2 (B : Nat) (ll : LookupList) (gd : Gdef) (hok : Spec.Shape
       | ok ts' =>
         rw [hr] at h
         simp only at h ⊢
-        obtain ⟨h1, h2⟩ := runLookup_eq2 B ll gd hok hnp lk (List.mem_of_getElem? hi) ts ts' hc hr
+        obtain ⟨h1, h2⟩ := runLookup_eq2 B ll gd hok hstep lk (List.mem_of_getElem? hi) ts ts' hc hr
         rw [h1]
         simp only [Shape.bind_ok_eq]
         exact ih ts' out h2 h
 
-/-- **Engine = reference for contextual lookups with pointwise nested lookups.** -/
-theorem engine_eq_spec_ctx (B : Nat) (ll : LookupList) (gd : Gdef) (lookups : List Nat) (seq r : List Glyph)
-    (hnp : nestedPointwiseLL ll = true) (h : Spec.Shape.shape B ll gd lookups seq = .ok r) :
+theorem tablesOk_of_shape {B : Nat} {ll : LookupList} {gd : Gdef} {lookups : List Nat} {seq r : List Glyph}
+    (h : Spec.Shape.shape B ll gd lookups seq = .ok r) : Spec.Shape.tablesOk ll gd = true := by
+  unfold Spec.Shape.shape at h
+  split at h
+  · simp [Spec.Shape.undef] at h
+  · rename_i hn; simpa using hn
+
+/-- the whole shaper, given agreement of every top-level application on clean buffers -/
+theorem shape_eq_of_step (B : Nat) (ll : LookupList) (gd : Gdef) (lookups : List Nat) (seq r : List Glyph)
+    (hstep : Spec.Shape.tablesOk ll gd = true → ∀ lk ∈ ll, StepEq B ll gd lk)
+    (h : Spec.Shape.shape B ll gd lookups seq = .ok r) :
     Shape.apply B ll gd lookups [] seq = .ok ⟨r, []⟩ := by
-  have hok : Spec.Shape.tablesOk ll gd = true := by
-    unfold Spec.Shape.shape at h
-    split at h
-    · simp [Spec.Shape.undef] at h
-    · rename_i hn; simpa using hn
+  have hok := tablesOk_of_shape h
   unfold Spec.Shape.shape at h
   split at h
   · simp [Spec.Shape.undef] at h
@@ -923,8 +927,14 @@ theorem engine_eq_spec_ctx (B : Nat) (ll : LookupList) (gd : Gdef) (lookups : Li
         intro t ht
         obtain ⟨g, _, hg⟩ := List.mem_map.mp ht
         subst hg; exact ⟨rfl, rfl⟩
-      have := runLookups_eq2 B ll gd hok hnp lookups _ ts hclean hr
+      have := runLookups_eq2 B ll gd hok (hstep hok) lookups _ ts hclean hr
       rw [gl_untagged] at this
       exact this
+
+/-- **Engine = reference for contextual lookups with pointwise nested lookups.** -/
+theorem engine_eq_spec_ctx (B : Nat) (ll : LookupList) (gd : Gdef) (lookups : List Nat) (seq r : List Glyph)
+    (hnp : nestedPointwiseLL ll = true) (h : Spec.Shape.shape B ll gd lookups seq = .ok r) :
+    Shape.apply B ll gd lookups [] seq = .ok ⟨r, []⟩ :=
+  shape_eq_of_step B ll gd lookups seq r (fun hok lk hlk => stepEq B ll gd hok hnp lk hlk) h
 
 end SfntV.C06
